@@ -224,18 +224,20 @@ def finish(prop, tier, seed, level, merged, t0, rule, assumptions, floors=(), ex
         json.dump(ev, f, indent=1, sort_keys=True)
     for fid, f in sorted(seen_findings.items()):
         print(f"KNOWN-FINDING: property={prop} {f['what']}")
-    if merged.infra:
-        for m in merged.infra:
-            log("INFRA:", m)
-        print(f"INFRASTRUCTURE-FAILURE property={prop}: {merged.infra[0]}")
-        return 2
-    for name, need in floors:
-        have = merged.counters.get(name, merged.cover.get(name, 0))
-        if name == "distinct_nontrivial":
-            have = len(merged.distinct)
-        if have < need:
-            print(f"INFRASTRUCTURE-FAILURE property={prop}: monitor floor not met: {name}={have} < {need}")
+    if not new_violations:
+        # (a violating tree may legitimately starve the monitors: violations are reported first)
+        if merged.infra:
+            for m in merged.infra:
+                log("INFRA:", m)
+            print(f"INFRASTRUCTURE-FAILURE property={prop}: {merged.infra[0]}")
             return 2
+        for name, need in floors:
+            have = merged.counters.get(name, merged.cover.get(name, 0))
+            if name == "distinct_nontrivial":
+                have = len(merged.distinct)
+            if have < need:
+                print(f"INFRASTRUCTURE-FAILURE property={prop}: monitor floor not met: {name}={have} < {need}")
+                return 2
     if new_violations:
         shown = set()
         for v in new_violations:
